@@ -49,9 +49,30 @@ def benign_table():
                     "pass" if cb.get("repo_tests_exit_with_change") == 0 else "FAIL", len(ch), "; ".join(bad) if bad else "none", m.get("status_note", "")))
     return "\n".join(rows)
 
+def cross_table():
+    f = os.path.join(ROOT, "seeded", "cross_matrix.json")
+    if not os.path.exists(f):
+        return "(no cross matrix recorded)"
+    m = json.load(open(f))
+    ids = ["C%02d" % i for i in range(1, 21)]
+    rows = ["| seeded change | caught by (quick tier, exit 1) | silent | other exits |", "|---|---|---|---|"]
+    per_check = {c: 0 for c in ids}
+    for name in sorted(m):
+        r = m[name]
+        hit = [c for c in ids if r.get(c, {}).get("exit") == 1]
+        other = ["%s=%s" % (c, r[c]["exit"]) for c in ids if c in r and r[c]["exit"] not in (0, 1)]
+        for c in hit:
+            per_check[c] += 1
+        own = name.split("-")[0]
+        hit_s = " ".join(("**%s**" % c) if c == own else c for c in hit) or "—"
+        rows.append("| %s | %s | %d | %s |" % (name, hit_s, sum(1 for c in ids if r.get(c, {}).get("exit") == 0), " ".join(other) or "—"))
+    rows.append("")
+    rows.append("Seeded changes caught per check (own and foreign): " + ", ".join("%s %d" % (c, per_check[c]) for c in ids) + ".")
+    return "\n".join(rows)
+
 def main():
     p = os.path.join(ROOT, "DESIGN.md"); s = open(p).read()
-    for name, fn in (("evidence", evidence_table), ("seeded", seeded_table), ("benign", benign_table)):
+    for name, fn in (("evidence", evidence_table), ("seeded", seeded_table), ("benign", benign_table), ("cross", cross_table)):
         b, e = f"<!-- BEGIN:{name} -->", f"<!-- END:{name} -->"
         if b in s and e in s:
             s = s[:s.index(b) + len(b)] + "\n" + fn() + "\n" + s[s.index(e):]
